@@ -76,7 +76,12 @@ def run(ctx):
         chunk = []
         for _ in range(k):
             tag += 1
-            r = logsgen.gen_record(rng, tag, profile=prof, tame=rng.random() < 0.8)
+            r = None
+            if chunk and rng.random() < 0.2:
+                # a distinct access that differs from an earlier record in one field only: it must not be discarded as a duplicate
+                r = logsgen.variant(rng, rng.choice(chunk), tag)
+            if r is None:
+                r = logsgen.gen_record(rng, tag, profile=prof, tame=rng.random() < 0.8)
             chunk.append(r)
         recs += chunk
         batches.append((prof, chunk))
@@ -154,7 +159,7 @@ def F(rule):
 def check_record(ctx, r, v, rules, audit, pending):
     """Returns (ok, why, generalised?) or None when the class is not mapped here."""
     cls = r["cls"]
-    tagstr = logsgen.tagstr(r["tag"])
+    tagstr = logsgen.tagstr(r.get("name_tag", r["tag"]))      # a variant keeps the names (and their tags) of its source
     qual_ok = lambda f: bool(f.get("Audit")) == audit and not f.get("AccessType")
     if cls in ("file", "exec", "link"):
         name = v["name"]
